@@ -22,9 +22,12 @@ PROP = {
         "travel-direction ingress of the hop field the packet arrived with (C13.hop_ingress_owner); a SCION-valid crossover "
         "incl. shortcut is forwarded (C13.xover_accept) -- both FAIL on HEAD (F-ingress0, F-xover), pass with "
         "/verif/fixes/pocketscion-ingress-check-arrival-hop.patch",
-        "SpecRoutingLogic::route [B]: ForwardLocal => DstIA == local AS (empty and standard paths); unsupported path type => Drop, packet untouched",
     ],
     "not_decided": [
+        "SpecRoutingLogic::route (DESIGN C13.4: ForwardLocal => DstIA == local AS; unsupported path type => Drop): harnesses are "
+        "written (/verif/kani/pocketscion/routing_spec.rs, hook `mod verif_routing_spec;` at the end of routing/spec.rs) but "
+        "kani-compiler 0.68 panics on them (intrinsics.rs:243 `output.kind() == Int(I32)`), so the unit is not registered; "
+        "'ForwardLocal only at the last hop field' is covered at the handle_standard_path level",
         "reference-router equivalence (DESIGN C13.5) as a separate step function: not written (budget); the step obligations "
         "above are the per-verdict halves of it (soundness of Forward/Deliver verdicts, completeness for crossovers only)",
         "error verdict => path bytes unchanged (DESIGN C13.3): does NOT hold and is not a SCION rule -- sciparse commits SegID / "
@@ -79,20 +82,6 @@ PROP = {
                 H("c13_step_seg2x2_anyidx", "B", tier="thorough", bound="path = 2 segments x 2 hop fields (68 B), CurrINF/CurrHF symbolic", what="as above for every CurrINF/CurrHF", timeout=7200),
                 H("c13_step_ingress_owner", "B", bound="path = 1 segment x 2 hop fields (36 B), CurrHF=1 (last hop), MACs ignored, unread bytes (hop field 0, MAC) zero", what="accepted from outside => arriving interface == travel ingress of the arrival hop field [fails on HEAD: F-ingress0]", timeout=1800),
                 H("c13_step_xover_accept", "B", bound="path = 2 segments x 2 hop fields (68 B), CurrHF=1, MACs ignored, unread bytes (hop fields 0 and 3, MACs) zero", what="SCION-valid crossover (incl. shortcut) is forwarded over the new segment's egress [fails on HEAD: F-xover]", timeout=1800),
-            ],
-        },
-        {
-            "id": "pocketscion-routing-spec", "engine": "kani", "package": "pocketscion",
-            "crate_dir": "crates/pocketscion",
-            "module": "/verif/kani/pocketscion/routing_spec.rs",
-            "mod_path": "network::scion::routing::spec::verif_routing_spec",
-            "hooks": [(SPEC, "mod verif_routing_spec;")],
-            "anchors": [(SPEC, ["route"])],
-            "functions": ["SpecRoutingLogic::route"],
-            "harnesses": [
-                H("c13_route_unsupported_drop", "B", bound="48 B packet, IPv4 hosts, no payload; PathType symbolic > 2", what="unsupported path type => Drop, packet untouched", timeout=1500),
-                H("c13_route_empty_local_only", "B", bound="36 B packet, IPv4 hosts, empty path", what="empty path: ForwardLocal <=> DstIA == local AS, else NonLocalDelivery", timeout=1500),
-                H("c13_route_std_local_only", "B", bound="72 B packet, IPv4 hosts, standard path 1 segment x 2 hop fields at CurrHF=1, MACs ignored", what="standard path: ForwardLocal => DstIA == local AS; NonLocalDelivery => DstIA != local AS", timeout=2400),
             ],
         },
     ],
